@@ -29,6 +29,12 @@ MUTANTS = [
     ("undo-fix-shared-offset", "eval.c", "      sexp_string_offset(str) = 0;\n", ""),
     ("undo-fix-x80-escape", "sexp.c", "          if ((unsigned)c >= 0x80) {", "          if ((unsigned)c > 0x80) {"),
     ("make-string-stride", "sexp.c", "sexp_utf8_encode_char((unsigned char*)sexp_bytes_data(b)+(j*clen), clen,", "sexp_utf8_encode_char((unsigned char*)sexp_bytes_data(b)+(j*(clen-(clen>3))), clen,"),
+    # round 2
+    ("join-separator-char-length", "sexp.c", "((sep_len=sexp_string_size(sep)) > 0))", "((sep_len=sexp_string_length(sep)) > 0))"),
+    ("peek-rewinds-offset-only", "eval.c", "    while (len>0)\n      sexp_port_buf(port)[--sexp_port_offset(port)] = ch[--len];\n  }", "    sexp_port_offset(port) -= len;\n  }"),
+    ("buf-start-2", "sexp.c", "#define BUF_START 4", "#define BUF_START 2"),
+    ("write-string-n-no-advance", "sexp.c", "    written += sexp_port_size(p);\n    str += diff;\n", "    written += sexp_port_size(p);\n"),
+    ("join-separator-ignores-offset", "sexp.c", "    csep = sexp_string_data(sep);", "    csep = sexp_bytes_data(sexp_string_bytes(sep));"),
     ("concat-length", "sexp.c", "    len = sexp_string_size(sexp_car(ls));\n    memcpy(p, sexp_string_data(sexp_car(ls)), len);", "    len = sexp_string_length(sexp_car(ls));\n    memcpy(p, sexp_string_data(sexp_car(ls)), len);"),
 ]
 
